@@ -606,15 +606,7 @@ func (p *Peer) TakeHeld() [][]byte {
 }
 
 // Close closes the peer's end of the pipe (peer close / reset).
-func (p *Peer) Close() {
-	p.closeOnce.Do(func() {
-		// a peer-initiated end is recorded at the instant the peer decides it, before the pipe
-		// closes; frames still being read are then no longer counted (see onData)
-		p.markDown()
-		close(p.closed)
-		_ = p.Conn.Close()
-	})
-}
+func (p *Peer) Close() { p.closeOnce.Do(func() { close(p.closed); _ = p.Conn.Close() }) }
 
 // markDown records the end of this generation as seen by its peer, once.
 func (p *Peer) markDown() {
@@ -639,12 +631,6 @@ func (p *Peer) Resume() {
 func (p *Peer) onData(f []byte) {
 	// the wire event is recorded BEFORE the independent count moves: a snapshot taken once the
 	// counts agree then has every wire event in front of it
-	p.tmu.Lock()
-	if p.tdone {
-		p.tmu.Unlock()
-		return
-	}
-	defer p.tmu.Unlock()
 	defer p.DataRecv.Add(1)
 	tok, _, ok := parseBody(f[14:])
 	var c *Call
